@@ -280,6 +280,30 @@ def monitor(owner, name, on_event, rebind_aliases=True, pure=True):
         det = Determinism('%s.%s' % (getattr(owner, '__name__', owner), name))
         DET['recs'].append(det)
 
+    # calling convention: every seventh call hands the last 1..n positional arguments to the real function by keyword (a memo
+    # keyed on *args alone, a wrapper that forwards only positionals); the monitors are told about the call as it was written
+    try:
+        import inspect
+        _ps = list(inspect.signature(raw).parameters.values())
+        pnames = [q.name for q in _ps] if all(q.kind == q.POSITIONAL_OR_KEYWORD for q in _ps) else None
+    except (TypeError, ValueError):
+        pnames = None
+
+    def by_keyword(a, k):
+        n = AMB['n']
+        if pnames is None or n % 7 != 5 or not a or len(a) > len(pnames) or not AMB['on']:
+            return a, k
+        j = 1 + (n // 7) % len(a)
+        names = pnames[len(a) - j:len(a)]
+        if any(nm in k for nm in names):
+            return a, k
+        k2 = dict(k)
+        k2.update(zip(names, a[len(a) - j:]))
+        ctx = DET['ctx']
+        if ctx is not None:
+            ctx.counters['ambient.calls-with-arguments-passed-by-keyword'] += 1
+        return a[:len(a) - j], k2
+
     @functools.wraps(raw)
     def wrapper(*a, **k):
         if det is not None and DET['careless']:
@@ -298,12 +322,13 @@ def monitor(owner, name, on_event, rebind_aliases=True, pure=True):
             AMB['current'] = None
 
     def judged(a, k, dctx=None):
+        a2, k2 = by_keyword(a, k)
         try:
             if dctx is None:
-                r = raw(*a, **k)
+                r = raw(*a2, **k2)
             else:
                 with _decimal.localcontext(dctx):
-                    r = raw(*a, **k)
+                    r = raw(*a2, **k2)
         except Exception as e:  # noqa
             o = Outcome('raise', e)
             if det is not None:
